@@ -433,7 +433,22 @@ void run_ops(int producer, const std::vector<Op> &ops)
         const std::string &k = op.kind;
         if (producer == 0)
             C->cur_main_op = (int)i;
-        if (k == "qtlog") {
+        if (k == "send") {
+            // C08 thread slice: this thread's own sink gets a record directly
+            if (producer >= 1 && producer < 64 && C->own_sinks[producer]) {
+                QByteArray text = "s" + QByteArray::number(producer) + "." + QByteArray::number((int)i) + " " + QByteArray::fromStdString(op.s);
+                if (op.e > 0) {
+                    QByteArray pad(op.e, 'q');
+                    for (int x = 0; x < op.e; x += 61)
+                        pad[x] = char('a' + (x / 61 + producer) % 26);
+                    text += ' ';
+                    text += pad;
+                }
+                QMessageLogContext mctx("s.cpp", 1, "void s()", "default");
+                LogMessage lmsg(QtInfoMsg, mctx, QString::fromUtf8(text));
+                C->own_sinks[producer]->send(lmsg);
+            }
+        } else if (k == "qtlog") {
             // through Qt's macros whatever the state of the logger (e.g. after it was destroyed: the
             // message handler is still installed and must drop the message, not touch a dead object)
             QByteArray text = "q" + QByteArray::number(producer) + "." + QByteArray::number((int)i) + " after-destroy";
@@ -673,6 +688,7 @@ sim::SchedConfig sched_config(const Plan &P)
     sc.spurious_pct = P.spurious_pm;
     sc.time_adv_pct = P.time_adv_pct;
     sc.clock_yield_pct = P.clock_yield_pct;
+    sc.io_yield_pct = P.io_yield_pct;
     sc.max_decisions = (uint32_t)P.max_decisions;
     sc.stall_tid = P.stall_tid;
     sc.stall_from = (uint32_t)P.stall_from;
@@ -727,7 +743,19 @@ void run_child(const Plan &P, const std::string &rundir)
         C->oth = C->logger;
     }
 
-    if (P.prop == "C11") {
+    if (P.prop == "C08") {
+        sim::FsConfig fc;
+        fc.root = rundir;
+        fc.granularity_ns = sim::MS;
+        sim::fs_arm(fc);
+        int n = P.cfg["sinks"].toInt();
+        for (int i = 1; i <= n && i < 64; i++) {
+            QString dir = QString::fromStdString(rundir) + "/s" + QString::number(i);
+            QDir().mkpath(dir);
+            C->own_sinks[i] = RotatingFileSinkPtr::create(dir + "/app.log", P.cfg["L"].toInt(), 0,
+                                                         RotatingFileSink::Options(RotatingFileSink::Compression));
+        }
+    } else if (P.prop == "C11") {
         sim::FsConfig fc;
         fc.root = rundir;
         fc.granularity_ns = sim::MS;
@@ -751,6 +779,8 @@ void run_child(const Plan &P, const std::string &rundir)
 
     run_ops(0, P.main_ops);
 
+    for (int i = 0; i < 64; i++)
+        C->own_sinks[i].reset(); // C08 thread slice: close (flush) the sinks
     sim::end();
     sim::finish_run(sim::ST_DONE);
 }
